@@ -1166,7 +1166,11 @@ func (fr *Frame) evalCall(x *SCall, ctx *specCtx) SV {
 					continue
 				}
 				r := g.fresh("fr")
-				fs = append(fs, "(forall (("+r+" Int)) (! (=> (<= "+r+" "+top0+") (= (select "+cur+" "+r+") (select "+old+" "+r+"))) :pattern ((select "+cur+" "+r+"))))")
+				if !declaredHeapName(cur) {
+					fs = append(fs, "(forall (("+r+" Int)) (=> (<= "+r+" "+top0+") (= (select "+cur+" "+r+") (select "+old+" "+r+"))))")
+				} else {
+					fs = append(fs, "(forall (("+r+" Int)) (! (=> (<= "+r+" "+top0+") (= (select "+cur+" "+r+") (select "+old+" "+r+"))) :pattern ((select "+cur+" "+r+"))))")
+				}
 			}
 			g.oblige("heapframe", pf.Name, ctx.oblPath(), implies(d, and(fs...)), "opaque specification function "+pf.Name+" is used where the heap must still equal the entry heap")
 		}
@@ -1188,11 +1192,23 @@ func (fr *Frame) evalCall(x *SCall, ctx *specCtx) SV {
 	if len(args) > 0 {
 		term = "(" + name + " " + strings.Join(args, " ") + ")"
 	}
-	if pf.Body == nil && pf.Ret.Kind == "ptr" && g.noHoist == 0 && g.entry != nil {
+	res := g.specSV(term, pf.Ret, pf.Pkg)
+	if pf.Body == nil && g.noHoist == 0 && g.entry != nil {
 		// an uninterpreted accessor abstraction yields an object that existed at function entry
-		g.assume("(<= " + term + " " + g.entry.heap.get(g, g.topKey()) + ")")
+		top0 := g.entry.heap.get(g, g.topKey())
+		if pf.Ret.Kind == "ptr" {
+			g.assume("(<= " + term + " " + top0 + ")")
+		} else if res.K == svGo && res.T != nil {
+			switch res.T.Underlying().(type) {
+			case *types.Interface:
+				g.S.needRef = true
+				g.assume("(<= (iface_ref " + term + ") " + top0 + ")")
+			case *types.Slice:
+				g.assume("(<= (sl_ref " + term + ") " + top0 + ")")
+			}
+		}
 	}
-	return g.specSV(term, pf.Ret, pf.Pkg)
+	return res
 }
 
 // evalMethodCall: x.M(args) in a spec — only accessor-like library methods, evaluated by inlining.
